@@ -11,6 +11,7 @@
              lost=<id@k,…> senders=<pc,…> falseClose=<0|1> deadWrite=<0|1> parked=<0|1>
         → stuck <i> <action>
 
+    dial-variant                              → locked | unlocked         (does ReConnect dial under connLock)
     notify-variant                            → reconnectFirst | guardFirst   (order of the tests in onPush)
     notify-run <reconnectFirst|guardFirst|tree> <action>…   (adapter-level model, Model/AdapterPush.lean)
         actions: setCallback · pNotify.<g> · pPush.<g>.<payload> · recv.<i> · send.<id>
@@ -178,11 +179,13 @@ def showState (s : State) : String :=
   s!"falseClose={b01 (falseClose s)} deadWrite={b01 (deadWrite s)} parked={b01 (parked s)}"
 
 /-- `Tars.ClientConn.admits` with a state-set limit of 4000 (`ok` iff `admits v cap idle evs 4000`) -/
-def doAdmits (v : Variant) (cap : Nat) (idle : Bool) (toks : List String) : String :=
+def doAdmits (v : Variant) (cap : Nat) (idle : Bool) (unlocked : Bool) (toks : List String) : String :=
   match parseAll parseEvent toks with
   | none => "bad-op"
   | some evs =>
-    match admitsFrom v cap 4000 [if idle then init else initNoIdle] evs 0 1 with
+    let start : State := if unlocked then { idleOK := idle, unlockedDial := true }
+      else if idle then init else initNoIdle
+    match admitsFrom v cap 4000 [start] evs 0 1 with
     | .ok (ss, mx) => s!"ok states={ss.length} max={mx}"
     | .error (i, 0) => s!"reject {i} {toks.getD i "?"}"
     | .error (i, n) => s!"toobig {i} {n}"
@@ -251,14 +254,15 @@ def doNotifyRun (v : AdapterPush.Variant) (toks : List String) : String :=
 def handle (ws : List String) : String :=
   match ws with
   | ["variant"] => variantName treeVariant
+  | ["dial-variant"] => if treeUnlockedDial then "unlocked" else "locked"
   | ["notify-variant"] => notifyVariantName AdapterPush.treeVariant
   | "notify-run" :: v :: toks =>
     match parseNotifyVariant v with
     | some v => doNotifyRun v toks
     | none => "bad-op"
-  | "admits" :: v :: cap :: idle :: toks =>
-    match parseVariant v, parseNat? cap, parseBool? idle with
-    | some v, some cap, some idle => doAdmits v cap idle toks
+  | "admits" :: vs :: cap :: idle :: toks =>
+    match parseVariant vs, parseNat? cap, parseBool? idle with
+    | some v, some cap, some idle => doAdmits v cap idle (vs == "tree" && treeUnlockedDial) toks
     | _, _, _ => "bad-op"
   | "run" :: v :: cap :: toks =>
     match parseVariant v, parseNat? cap with
